@@ -480,8 +480,26 @@ def ob_logdet_fwd(spec_name, case_name):
             assume = assume + seeds
             DEC.add(*seeds)
         args = list(Psym) + [spec.x_sym] + ([spec.c_sym] if spec.cond_shape is not None else [])
-        y, ld = I.run(jal, *args)
         J = I.run(jJ, *args)[0]
+        if "staged" in spec.tags and not concrete:
+            # lemma seeding: signs of the diagonal of a syntactically triangular Jacobian are proved one by one and
+            # asserted for the decider, so that |.| inside the traced log-det folds
+            n_ = int(np.prod(spec.shape)) if spec.shape else 1
+            M = np.asarray(J, dtype=object).reshape(n_, n_)
+            tri = all((not jx.is_sym(M[i, k]) and M[i, k] == 0) for i in range(n_) for k in range(i + 1, n_)) or \
+                all((not jx.is_sym(M[i, k]) and M[i, k] == 0) for i in range(n_) for k in range(i))
+            if tri:
+                for i in range(n_):
+                    dt, do, di = split(M[i, i])
+                    if not is_z(dt):
+                        continue
+                    for sgn in (toreal(dt) > 0, toreal(dt) < 0):
+                        st_, _ = check(ctx, assume, z3.And(toz(jx.band(do, di == 0)), sgn), name="", timeout=15_000)
+                        if st_ == "unsat":
+                            assume = assume + [sgn]
+                            DEC.add(sgn)
+                            break
+        y, ld = I.run(jal, *args)
         set_path(None)
         return ctx, assume, ld, J
 
